@@ -132,12 +132,26 @@ class GitWorld:
                 if w.branch(z3.Or([self.loc[t] == i for t in self.tags])):
                     out.append(self.unreach if i == self.k else self.hashes[i])
             return txt('\n'.join(out))
-        if argv[:2] == ['tag', '--points-at'] and len(argv) == 3:
-            h = argv[2]
+        sort_flags = [a for a in argv[1:] if a.startswith('--sort=')]
+        rest = [a for a in argv if not a.startswith('--sort=')]
+        if rest[:2] == ['tag', '--points-at'] and len(rest) == 3:
+            h = rest[2]
             if h not in self.hashes and h != self.unreach:
                 return None         # git fails on an unknown object
             i = self.k if h == self.unreach else self.hashes.index(h)
             names = [t for t in sorted(self.tags) if w.branch(self.loc[t] == i)]
+            if sort_flags and len(names) > 1:
+                # a --sort key (version:refname, creatordate, ...) is not modelled: the names come in an order chosen by the
+                # solver (an over-approximation of every sort key; counterexamples must reproduce on a real repository)
+                perm = [w.fresh_int('sort%d_%d' % (len(self.log), j), 0, len(names) - 1) for j in range(len(names))]
+                w.assume(z3.Distinct(*perm))
+                out = []
+                for j in range(len(names)):
+                    for x in range(len(names)):
+                        if names[x] not in out and w.branch(perm[x] == j):
+                            out.append(names[x])
+                            break
+                names = out
             return txt('\n'.join(names))
         if argv[:2] == ['rev-list', '--count'] and argv[-1].endswith('..HEAD') and all(a in ('--no-merges', '--first-parent') for a in argv[2:-1]):
             t = argv[-1][:-len('..HEAD')]
